@@ -588,7 +588,16 @@ reneg_case(long long seed, long idx)
 			if (tp_ep_closed(&s.p.c) || tp_ep_closed(&s.p.s)) {
 				snprintf(what, sizeof what, "connection failed when application data crossed a renegotiation request: c_err=%d s_err=%d",
 					br_ssl_engine_last_error(s.p.c.eng), br_ssl_engine_last_error(s.p.s.eng));
-				TP_VIOL("reneg:data-in-flight-breaks-connection", what);
+				/* the known behaviour has a precise signature: the endpoint that asked for the renegotiation fails with
+				   BR_ERR_UNEXPECTED on an application-data record that reaches it during its handshake; anything else that
+				   breaks the connection here is something new */
+				if (br_ssl_engine_last_error(A->eng) == BR_ERR_UNEXPECTED && A->eng->record_type_in == 23 /* application_data */
+					&& (A->eng->application_data & 1) == 0)
+				{
+					TP_VIOL("reneg:data-in-flight-breaks-connection", what);
+				} else {
+					TP_VIOL("reneg:data-in-flight-other-failure", what);
+				}
 				goto out;
 			}
 		}
